@@ -107,7 +107,7 @@ def proj(H, g):
     j = {
         "nodes": nodes, "edges": edges, "n2e": n2e, "e2n": e2n,
         "nak": nak, "eak": eak, "nattr": nattr, "eattr": eattr, "gattr": gattr,
-        "uid": g.inv_uid(peek_uid(H)) if hasattr(g, "inv_uid") else peek_uid(H), "frozen": bool(H.is_frozen),
+        "uid": peek_uid(H), "frozen": bool(H.is_frozen),
     }
     return j, sorted(set(anom))
 
